@@ -45,7 +45,7 @@ inductive Step {α : Type} (n cap : Nat) : FS α → FS α → Prop
       Step n cap s { s with oclosed := upd s.oclosed k true, h := if k + 1 < n then .close (k + 1) else .done }
   | read (s : FS α) (k : Nat) (v : α) (b : List α) (hk : k < n) (h1 : s.buf k = v :: b) (h2 : s.readerDone k = false) :
       Step n cap s { s with buf := upd s.buf k b, reads := upd s.reads k (s.reads k ++ [v]) }
-  | readClosed (s : FS α) (k : Nat) (hk : k < n) (h1 : s.buf k = []) (h2 : s.oclosed k = true) :
+  | readClosed (s : FS α) (k : Nat) (hk : k < n) (h1 : s.buf k = []) (h2 : s.oclosed k = true) (h3 : s.readerDone k = false) :
       Step n cap s { s with readerDone := upd s.readerDone k true }
 
 def initFS {α : Type} (input : List α) : FS α :=
